@@ -47,6 +47,7 @@ struct World
         std::uint8_t   flushed;          // Flush accepted in this session
         std::uint8_t   prog_ok;          // progress notifications of this session can be aligned with blocks
         std::uint8_t   prog_queued;      // a progress notification is queued and not yet sent
+        std::uint8_t   stale_flash;      // the session was started while flash operations / progress of an earlier session were in flight (labels only)
         std::uint8_t   outstanding;      // indication sent, not yet confirmed
         std::uintptr_t session_start;
         std::uintptr_t lin_end;          // session_start + all data bytes written since (labels only): where a linear session can have got to
@@ -305,7 +306,7 @@ struct World
             const char* mech =
                   linear && ref.start_class == S_AT_END && x.addr / page == ref.session_start / page ? "start-address-at-region-end-accepted"
                 : linear && x.addr / page != ref.session_start / page ? "page-continuation-unchecked"
-                : !linear && ref.clobber ? "start-address-shared-with-read-or-crc-procedure"
+                : !linear && ref.clobber && x.kind != A_PUBLIC_CRC ? "start-address-shared-with-read-or-crc-procedure"   // ( Get CRC works on the addresses of its own request )
                 : "other";
             const char* what = ( x.kind == A_START_FLASH || x.kind == A_READ_MEM ) ? "flash" : x.kind == A_PUBLIC_READ ? "read" : "crc";
             c.fail( mc::fmt( "white-list:%s:%s", mech, what ),
@@ -464,6 +465,7 @@ struct World
             ref.crc = crc_addr( e.a1 );
             ref.block = 0; ref.nprog = 0;
             ref.prog_ok = srv->flashing == 0 && !ref.prog_queued;
+            ref.stale_flash = !ref.prog_ok;
         }
 
         // notification bookkeeping: a second control point write before the first one was answered makes the answer unpredictable
@@ -751,7 +753,12 @@ struct World
             {
                 do_cp( events[ ev_flush ], d ); mirror_flash();
                 if ( bad() ) break;
-                if ( d.obs != "13" ) { d.fail( "flush:refused-with-pending-data", "Flush of a partially filled page in a clean session answered " + d.obs ); break; }
+                if ( d.obs != "13" )
+                {
+                    d.fail( ref.stale_flash ? "flush:refused-with-pending-data:after-end_flash-of-an-earlier-session" : "flush:refused-with-pending-data",
+                            "Flush of a partially filled page in a clean session answered " + d.obs + " (the received data is gone)" );
+                    break;
+                }
                 poll_all();
                 if ( bad() ) break;
             }
